@@ -172,4 +172,34 @@ def trun {η α : Type} [DecidableEq η] (name : α → η) : Tbl η α → Nat 
       (r.1 :: rr.1, rr.2)
   | t, n, .gc keep :: rest => trun name (tgc keep t) n rest
 
+/-! ### observables that read process-global state
+
+  How a method (`_meta`, `_divisions`, `_layer`, …) obtains a value `f key` that is also memoised in
+  a process-global cache: -/
+inductive Discipline where
+  | pure          -- computed from operands only
+  | recompute     -- `if key in cache: return cache[key]; v = compute(); cache[key] = v; return v`
+  | assertHit     -- `assert key in cache; return cache[key]`
+deriving DecidableEq, Repr
+
+def observe {κ ν : Type} [DecidableEq κ] (d : Discipline) (cap : Nat) (f : κ → Option ν)
+    (c : LRU κ ν) (k : κ) : Option ν × LRU κ ν :=
+  match d with
+  | .pure => (f k, c)
+  | .recompute => getOrComputeA cap f c k
+  | .assertHit => assertHit c k
+
+/-- one row of Generated/CacheSites.lean: function `func` touches cache `cache` -/
+structure Site where
+  cache : String        -- the global object
+  func : String         -- module:qualified function name
+  reads : Bool          -- `cache[key]` is evaluated
+  writes : Bool         -- `cache[key] = …`, `.clear()`, `.pop()`
+  guarded : Bool        -- every read is protected by a membership test whose miss branch computes and stores
+  asserts : Bool        -- a miss is an `assert` failure
+  observable : Bool     -- `func` is (called from) `_meta` / `_divisions` / `_layer` / `npartitions` of an expression class
+  key : String          -- source text of the key expression(s)
+  uncovered : List String  -- inputs of the memoised computation (parameters, self.x) the key does not mention
+deriving Repr, DecidableEq
+
 end Dx.Cache
